@@ -71,8 +71,8 @@ ScaleOK(isDiv, xs, X, F, max, res, rs, R) ==
   IN
   IF FIsNaN(F) THEN errK(EInvalidNumberS)
   ELSE IF isDiv /\ FIsZero(F) THEN
-       \* division by (+/-)zero; 0/0 is also "a NaN result"
-       errK(EDivideByZeroS) \/ (xs = 0 /\ errK(EInvalidNumberS))
+       \* division by (+/-)zero is reported as divide-by-zero whatever the dividend (also 0/0)
+       errK(EDivideByZeroS)
   ELSE IF FIsInf(F) THEN
        IF isDiv THEN ok /\ BigIsZero(R)                        \* x / inf = 0
        ELSE IF xs = 0 THEN errK(EInvalidNumberS)              \* 0 * inf = NaN
